@@ -152,13 +152,14 @@ func uncompressIndices(indices interface{}) ([]int, error) {
 				return nil, fmt.Errorf("uncompressIndices: index array[0] is not a number: %v", index[0])
 			}
 
-			end, ok := index[1].(float64)
+			count, ok := index[1].(float64)
 			if !ok {
 				return nil, fmt.Errorf("uncompressIndices: index array[1] is not a number: %v", index[1])
 			}
 
-			for i := start; i <= end; i++ {
-				uncompressedIndices = append(uncompressedIndices, int(i))
+			// A run is encoded as [first, count], see diff.compressReorderIndices.
+			for i := 0; i < int(count); i++ {
+				uncompressedIndices = append(uncompressedIndices, int(start)+i)
 			}
 		case float64:
 			uncompressedIndices = append(uncompressedIndices, int(index))
